@@ -42,13 +42,19 @@ func runCase(c *wk.Ctx, i int) {
 	os := model.RandomOptions(r, model.OptConstraints{})
 	nkeys := 40 + r.Intn(400)
 	nops := 100 + r.Intn(c.Pick(1200, 2500))
+	bigKeys := i%8 == 5
+	if bigKeys {
+		nkeys, nops = 30+r.Intn(120), 100+r.Intn(400)
+		os.Desc["keys_of_several_KiB"] = true
+		c.Count("states_with_keys_of_several_KiB", 1)
+	}
 	c.Begin(i, fmt.Sprintf("opts=%v nkeys=%d nops=%d", os.Desc, nkeys, nops))
 	wit := map[string]interface{}{"options": os.Desc}
 	// ---- a settled state after a clean shutdown
 	var ru *dbx.Runner
 	var berr error
 	if c.Guard(i, "state building", func() {
-		ru, berr = dbx.NewRunner(r, os, nkeys, false)
+		ru, berr = dbx.NewRunnerBig(r, os, nkeys, false, bigKeys)
 		if berr != nil {
 			return
 		}
